@@ -78,3 +78,35 @@ Proof.
     rewrite Hl in H. cbn [res_bind negb orb] in H. cbv zeta in H. destr_if H; discriminate.
   - eapply msg_deserialize_no_panic; eauto.
 Qed.
+
+Lemma msg_deserialize_header : forall buf m,
+  msg_deserialize buf = Ok m -> m_header m = fst (fst (de_header buf)).
+Proof.
+  intros buf m H. unfold msg_deserialize in H.
+  destruct (_ <? _)%nat; [discriminate|].
+  destruct (de_header buf) as [[h ty] mlen]. cbn [fst].
+  destruct (negb _); [discriminate|]. destruct (mlen <? 34); [discriminate|].
+  destruct (_ <? _)%nat; [discriminate|].
+  destruct (de_body ty _); cbn [res_bind] in H; try discriminate.
+  destruct (tlvset_de _); cbn [res_bind] in H; try discriminate.
+  inversion H; reflexivity.
+Qed.
+
+(* what CsptpMessage::deserialize demands of a Sync *)
+Lemma csptp_deserialize_sync : forall buf m origin,
+  csptp_deserialize buf = Ok m -> m_body m = Sync origin ->
+  exists ts, tlvs (m_suffix m) = Ok ts
+    /\ Nat.add (count_if (fun t : tlv => Z.eqb (fst t) Gen.ConstCsptp.TLV_CSPTP_REQUEST) ts)
+               (count_if (fun t : tlv => Z.eqb (fst t) Gen.ConstCsptp.TLV_CSPTP_RESPONSE) ts) = 1%nat
+    /\ count_if (fun t : tlv => Z.eqb (fst t) Gen.ConstCsptp.TLV_CSPTP_REQUEST) ts = count_if (fun t => is_some (req_tlv_try t)) ts
+    /\ count_if (fun t : tlv => Z.eqb (fst t) Gen.ConstCsptp.TLV_CSPTP_RESPONSE) ts = count_if (fun t => is_some (resp_tlv_try t)) ts.
+Proof.
+  intros buf m origin H Hb. pose proof (csptp_deserialize_ok _ _ H) as (E & V & _).
+  unfold csptp_deserialize in H. rewrite E in H. cbn [res_bind] in H.
+  destr_if H; [discriminate|]. rewrite Hb in H.
+  destruct (tlvs_valid_ok _ V) as [ts Hts]. rewrite Hts in H. cbn [res_bind] in H. cbv zeta in H.
+  destr_if H; [discriminate|].
+  exists ts. split; [exact Hts|].
+  apply orb_false_iff in Heqb0. destruct Heqb0 as [A C]. apply orb_false_iff in A. destruct A as [A B].
+  apply negb_false_iff in A, B, C. apply Nat.eqb_eq in A, B, C. auto.
+Qed.
